@@ -242,6 +242,20 @@ def run_property(pid, tier="quick", seed=0, replay_only=None):
         proved_anywhere.update(_p.get("functions", ()))
     assumed_unproved = sorted(n for n in applied if n in reg.contracts and not reg.contracts[n].trusted
                               and n not in proved_anywhere and n.split("!")[0] not in proved_anywhere)
+    # every clause that is assumed rather than proved in the contracts of this property's functions, mechanically collected:
+    # `assumes` (entry hypotheses not checked at call sites) and site assumptions (before / after a call)
+    assumed_clauses = []
+    for q in quals:
+        c = reg.contracts.get(q)
+        if c is None:
+            continue
+        for cl in getattr(c, "assumes", ()) or ():
+            assumed_clauses.append({"function": q, "kind": "assumes (entry)", "clause": cl})
+        for kind in ("site_assumes", "site_assumes_after"):
+            for callee, cls_ in (c.labels.get(kind) or {}).items():
+                for cl in cls_:
+                    assumed_clauses.append({"function": q, "kind": "%s %s" % ("before call of" if kind == "site_assumes" else "after call of", callee),
+                                            "clause": cl})
     ev = {
         "property_id": pid, "tier": tier, "seed": int(seed), "level": "proof",
         "coverage": {
@@ -265,6 +279,7 @@ def run_property(pid, tier="quick", seed=0, replay_only=None):
             "samples": samples,
             "bounded_standins": [{k: v for k, v in sb.items() if k != "violations"} for sb in standins],
             "mutation_selftest": selftest,
+            "assumed_clauses": assumed_clauses,
             "not_proved_clauses": P.get("not_proved", []),
             "explanation": P.get("explanation", ""),
         },
